@@ -124,7 +124,7 @@ func isNilPtr(v Value) bool {
 	return ok && p.Obj == nil
 }
 
-const bigArrayThreshold = 128
+const bigArrayThreshold = 160
 
 func (x *Exec) sortOfBasic(b *types.Basic) (Sort, bool) {
 	switch b.Kind() {
@@ -510,7 +510,26 @@ func (x *Exec) merge(g *Term, a, b Value) Value {
 		if av.Obj == bv.Obj {
 			return av
 		}
-		x.fail("merge: different maps")
+		// different map objects: a fresh object holding the guarded union of their entries (aliasing
+		// with the originals is not tracked; nil merges as empty)
+		ns := &MapState{}
+		add := func(m *MapV, cond *Term) {
+			if m.Obj == nil {
+				return
+			}
+			ms := m.Obj.Val.(*MapState)
+			ns.KeyT, ns.ValT = ms.KeyT, ms.ValT
+			if ms.BasePresent != nil {
+				x.fail("merge: maps with symbolic base")
+			}
+			for _, e := range ms.Entries {
+				ns.Entries = append(ns.Entries, MapEntry{Present: x.c.And(cond, e.Present), Key: e.Key, Val: e.Val})
+			}
+		}
+		add(av, g)
+		add(bv, x.c.Not(g))
+		x.modeled["merge of two different map objects: guarded union in a fresh object (aliasing not tracked)"]++
+		return &MapV{Obj: x.newObject(nil, ns, "merged-map")}
 	}
 	x.fail("merge: unsupported %T", a)
 	return nil
